@@ -95,6 +95,33 @@ Theorem C11_app_judgement_transfer : forall sc t, JudgeC11AppP.profile_C11b sc =
 Proof. exact JudgeC11AppP.C11_app_judgement_transfer. Qed.
 
 
+(* ---- source tie, second wave (DESIGN 11.7): definitions regenerated from the Rust source coincide with the model ---- *)
+From BEI Require Generated.DataSrc Generated.CondSrc Generated.ModifSrc Proofs.SrcTie2P.
+Theorem C11_source_press : forall look tm c v, let r := CondSrc.Press_evaluate_src c v in (SrcTie2P.press_of (fst r), snd r) = Cond.cond_eval look tm v (SrcTie2P.press_of c).
+Proof. exact SrcTie2P.Press_evaluate_tie. Qed.
+
+Theorem C11_source_just_press : forall look tm c v, let r := CondSrc.JustPress_evaluate_src c v in (SrcTie2P.just_press_of (fst r), snd r) = Cond.cond_eval look tm v (SrcTie2P.just_press_of c).
+Proof. exact SrcTie2P.JustPress_evaluate_tie. Qed.
+
+Theorem C11_source_release : forall look tm c v, let r := CondSrc.Release_evaluate_src c v in (SrcTie2P.release_of (fst r), snd r) = Cond.cond_eval look tm v (SrcTie2P.release_of c).
+Proof. exact SrcTie2P.Release_evaluate_tie. Qed.
+
+Theorem C11_source_hold : forall look c dt sp v, let r := CondSrc.Hold_evaluate_src c dt sp v in SrcTie2P.eval_tie (SrcTie2P.hold_of (fst r), snd r) (Cond.cond_eval look (Cond.mkTime dt sp) v (SrcTie2P.hold_of c)).
+Proof. exact SrcTie2P.Hold_evaluate_tie. Qed.
+
+Theorem C11_source_hold_and_release : forall look c dt sp v, let r := CondSrc.HoldAndRelease_evaluate_src c dt sp v in SrcTie2P.eval_tie (SrcTie2P.hold_and_release_of (fst r), snd r) (Cond.cond_eval look (Cond.mkTime dt sp) v (SrcTie2P.hold_and_release_of c)).
+Proof. exact SrcTie2P.HoldAndRelease_evaluate_tie. Qed.
+
+Theorem C11_source_tap : forall look c dt sp v, let r := CondSrc.Tap_evaluate_src c dt sp v in SrcTie2P.eval_tie (SrcTie2P.tap_of (fst r), snd r) (Cond.cond_eval look (Cond.mkTime dt sp) v (SrcTie2P.tap_of c)).
+Proof. exact SrcTie2P.Tap_evaluate_tie. Qed.
+
+Theorem C11_source_pulse : forall look c dt sp v, let r := CondSrc.Pulse_evaluate_src c dt sp v in SrcTie2P.eval_tie (SrcTie2P.pulse_of (fst r), snd r) (Cond.cond_eval look (Cond.mkTime dt sp) v (SrcTie2P.pulse_of c)).
+Proof. exact SrcTie2P.Pulse_evaluate_tie. Qed.
+
+Theorem C11_source_timer : forall t dt sp, SrcTie2P.tmeq (SrcTie2P.timer_of (CondSrc.ConditionTimer_update_src t dt sp)) (Cond.timer_update (Cond.mkTime dt sp) (SrcTie2P.timer_of t)).
+Proof. exact SrcTie2P.ConditionTimer_update_tie. Qed.
+
+
 Print Assumptions C11_actuation.
 Print Assumptions C11_press.
 Print Assumptions C11_just_press.
@@ -114,3 +141,11 @@ Print Assumptions C11_judgement_sound.
 Print Assumptions C11_judgement_transfer.
 Print Assumptions C11_app_judgement_sound.
 Print Assumptions C11_app_judgement_transfer.
+Print Assumptions C11_source_press.
+Print Assumptions C11_source_just_press.
+Print Assumptions C11_source_release.
+Print Assumptions C11_source_hold.
+Print Assumptions C11_source_hold_and_release.
+Print Assumptions C11_source_tap.
+Print Assumptions C11_source_pulse.
+Print Assumptions C11_source_timer.
